@@ -346,6 +346,10 @@ def decode_model(case: Case, model) -> tuple[list[int], int, bytes] | None:
                       ((f, (model.model[f].variable_name, model.model[f].solidity_type)) for f in model.model))
                       if n == "bs" and t == "bytes"), 0)
         bdata = raw.to_bytes(nbits // 8, "big") if nbits else b""
+        if ("bs", "length") not in vals:
+            # the length of a path's dynamic parameter is a concrete candidate, not a model variable: it is
+            # what halmos prints as the width of p_bs_bytes
+            blen = nbits // 8
     return statics, blen, bdata
 
 
@@ -444,13 +448,18 @@ class C03Check:
                     oracle="C03:faultfree-verdict-mismatch", disc=f"{verdict}-for-unreachable",
                     detail=f"[{verdict}] for a test whose failure leaf is guarded by a contradiction ({case.guards}); "
                            f"models {[str(m) for m in (res0.models or [])][:2]}; warnings {out.warnings[-3:]}"))
-            if not faulted and verdict not in ("FAIL",) and case.reachable and verdict != "PASS":
+            truth_unknown = any(h["truth"] == "unknown" for h in out.stub.history)
+            if not faulted and verdict not in ("FAIL",) and case.reachable and verdict != "PASS" and not (
+                    verdict == "TIMEOUT" and truth_unknown):
                 violations.append(dict(
                     oracle="C03:faultfree-verdict-mismatch", disc=f"{verdict}-for-reachable",
                     detail=f"[{verdict}] instead of FAIL for a reachable failure; guards {case.guards}; warnings {out.warnings[-3:]}; "
                            f"queries {[(h['file'], h['kind'], h['truth']) for h in out.stub.history]}"))
             # ---------------- C04: every model marked valid replays; abstract models are never valid
-            for mdl in (res0.models or []):
+            truncated_reply = any(h["kind"] == "crash_partial" for h in out.stub.history)
+            if truncated_reply:
+                probes["models_from_truncated_output_not_judged"] = 1
+            for mdl in ([] if truncated_reply else (res0.models or [])):
                 dec = decode_model(case, mdl)
                 statics, blen, bdata = dec
                 cd = case.calldata(statics, blen, bdata)
@@ -492,13 +501,16 @@ class C03Check:
                     violations.append(dict(
                         oracle="C04:printed-value-differs", disc="no-solver-output-has-these-values",
                         detail=f"model {str(mdl)[:300]} does not occur in any solver output of this test"))
+        incon = None
+        if out.stub.wall_timeouts:
+            incon, violations = "truthful-solver-wall-timeout", []
         mine = [v for v in violations if v["oracle"].startswith(self.mine)]
         digest = out.sim.digest()
         rtsha = __import__("hashlib").sha1(rt).hexdigest()[:12]
         faults = dict(out.sim.fault_counts)
         for k, n in out.eseam.faults.items():
             faults[k] = faults.get(k, 0) + n
-        res = dict(violations=[{k: v[k] for k in ("oracle", "disc", "detail")} for v in mine], inconclusive=None,
+        res = dict(violations=[{k: v[k] for k in ("oracle", "disc", "detail")} for v in mine], inconclusive=incon,
                    faults=faults, probes=probes, digest=digest, shape=rtsha,
                    nontrivial=probes["queries"] >= 1, sim_seconds=out.sim.now, steps=out.sim.steps,
                    descriptor=dict(sig=case.sig, guards=[list(map(lambda x: hex(x) if isinstance(x, int) and x > 9 else x, g)) for g in case.guards],
